@@ -24,6 +24,8 @@ const (
 	tAAAA  = 28
 	tSVCB  = 64
 	tHTTPS = 65
+	tTXT   = 16
+	tCAA   = 257
 )
 
 func q(name string, qtype uint16, id uint16) control.C09Query {
@@ -43,7 +45,7 @@ func main() {
 		fmt.Fprintln(os.Stderr, "C09: prepare:", err)
 		os.Exit(2)
 	}
-	// Whole scenarios are distributed over the worker processes (20 quick / 23 thorough scenarios on 16 workers, the 7 small sequential ones first:
+	// Whole scenarios are distributed over the worker processes (22 quick / 25 thorough scenarios on 16 workers, the 8 small ones first:
 	// one start-up per worker, no redundant shallow executions — the machine is shared). Every scenario deepens
 	// its bounds cheapest first until its list is done or the common deadline is reached (exhaustive:false).
 	thorough, worker := false, false
@@ -91,6 +93,13 @@ func main() {
 	add(&control.C09Params{Name: "L1/chain-aging", Layer: 1, Chain: true, Behaviours: []string{"ok", "error"},
 		Clients: C(cl(q(a, tA, 0x7c01)), cl(qg("A.C9.Test.", tA, 0x7c02, 20*time.Second)), cl(qg(a, tA, 0x7c03, 21*time.Second)))}, one, deep1)
 
+	// transparent-UDP reply path (Handle_, lConn set, replies through sendRuntimeTrackedPkt onto loopback sockets):
+	// a large TXT answer (> 1024 bytes packed) is resolved at 0s and hit 1s later by two clients at once, every
+	// client under its own transaction ID; besides the replies, the published pre-packed image must stay untouched
+	add(&control.C09Params{Name: "L1/udp-path-big-txt", Layer: 1, PacketPath: true, Behaviours: []string{"ok"},
+		Clients: C(cl(q(a, tTXT, 0x8101)), cl(qg(a, tTXT, 0x8202, time.Second)), cl(qg(a, tTXT, 0x8303, time.Second)))},
+		[]B{{0, 0}, {1, 0}, {0, 1}, {2, 0}}, deep1)
+
 	// ---- layer 1: scripted forwarder behind the real controller --------------------------------------------
 	// identical question (0x20 mixed case on one side), different transaction IDs: coalescing, per-waiter ID
 	add(&control.C09Params{Name: "L1/same-name", Layer: 1, Clients: C(cl(q(a, tA, 0x1001)), cl(q("A.C9.Test.", tA, 0x2002)))},
@@ -111,6 +120,9 @@ func main() {
 	// one name asked as SVCB (64) and HTTPS (65): concurrently (client 0's first question against client 1) and
 	// sequentially inside the TTL (client 0's second question)
 	add(&control.C09Params{Name: "L1/svcb-vs-https", Layer: 1, Clients: C(cl(q(a, tSVCB, 0x6464), q(a, tHTTPS, 0x6565)), cl(q(a, tHTTPS, 0x6464)))},
+		[]B{{0, 0}, {1, 0}, {0, 1}, {2, 0}}, []B{{0, 0}, {1, 0}, {0, 1}, {2, 0}, {1, 1}, {0, 2}, {2, 1}})
+	// one name asked as A (1) and CAA (257 = 0x0101: a two-byte type whose low byte is A), concurrently and sequentially
+	add(&control.C09Params{Name: "L1/a-vs-caa", Layer: 1, Clients: C(cl(q(a, tA, 0x0101), q(a, tCAA, 0x0257)), cl(q(a, tCAA, 0x0101)))},
 		[]B{{0, 0}, {1, 0}, {0, 1}, {2, 0}}, []B{{0, 0}, {1, 0}, {0, 1}, {2, 0}, {1, 1}, {0, 2}, {2, 1}})
 	// two queries per client, crossing: cache hits and coalescing mixed
 	add(&control.C09Params{Name: "L1/two-queries", Layer: 1, Clients: C(cl(q(a, tA, 0x0101), q(b, tA, 0x0102)), cl(q(b, tA, 0x0201), q(a, tA, 0x0202)))},
@@ -161,7 +173,8 @@ func main() {
 			r.Rule("bound (p,d): p = switches away from the default scheduler choice (preemptions and non-default picks when the running thread blocks), d = environment deviations = scripted-upstream misbehaviours (vsched.Choose != 0) plus timers fired while a thread could still run (a stalled goroutine: context and socket deadlines expire early)")
 			r.Assume("golang.org/x/sync/singleflight (coalescing) is the module's own file, copied verbatim by checks/C09/prebuild into a virtual package and instrumented like the repo files; control/dns_control.go is taken from the working tree with exactly its singleflight import path swapped")
 			r.Assume("dnsPipelineMaxIDs lowered from 4096 to 8 by an overlay constant (pipelinedConn.closeWithErr walks the whole pending table; at most 3 requests are in flight here)")
-			r.Assume("clients enter through DnsController.HandleWithResponseWriter_ with a capturing ResponseWriter (the path of the DNS listener and DNS-over-TCP); the packet path (sendRuntimeTrackedPkt, needs real sockets) is not executed. A handler error is what the listeners turn into SERVFAIL built from the request")
+			r.Assume("clients enter through DnsController.HandleWithResponseWriter_ with a capturing ResponseWriter (the path of the DNS listener and DNS-over-TCP); the transparent-UDP packet path (Handle_, sendRuntimeTrackedPkt) is executed in L1/udp-path-big-txt only, onto real loopback sockets read without blocking after the clients are done. A handler error is what the listeners turn into SERVFAIL built from the request")
+			r.Assume("packet path: the pre-packed reply image of a cache entry, once published, must never change (identity of the published slice; a re-pack publishes a new one) — a sufficient condition for hits under different transaction IDs not to race on it")
 			r.Assume("an upstream reply whose question section is the client's question but whose records are garbage cannot be told from an answer by a forwarder and is not in the behaviour alphabet; foreign answers are whole messages generated for another question (other name or other type) under the request's ID")
 			r.Assume("cache hits are served from the pre-packed bytes (live since 822787e); the re-pack slow path (entry older than 15s, still fresh) is reached in L1/chain-aging only; optimistic (stale) serving is off")
 			r.Assume("every scenario ends with retire-all (ResetDnsForwarders) + quiescence before the controller is closed: from then on every forwarder ever created must have seen Close exactly once")
